@@ -214,9 +214,8 @@ def create (s : State) (name : String) (slot : Nat) (unique : Bool) : State × S
 
 /-- A transaction commits into store `name`: the new count (`none` when the count delta is 0: then the store info is
 neither updated nor replicated nor logged) and the registry changes (final handle images). -/
-def commit (s : State) (name : String) (count : Option Int) (roots added updated : List (RKey × String)) (removed : List RKey) :
-    State × String :=
-  let (s, rt) := newTracker s
+def commitT (s : State) (rt : Flags) (name : String) (count : Option Int) (roots added updated : List (RKey × String))
+    (removed : List RKey) : State × String :=
   let a := active s rt
   match get name a.infos with
   | none => (s, "bad-op")
@@ -242,6 +241,12 @@ def commit (s : State) (name : String) (count : Option Int) (roots added updated
       | none => []
     let s := if rt.logc then { s with logs := s.logs ++ [{ stores := stores, roots := roots, added := added, updated := updated, removed := removed }] } else s
     (s, "ok")
+
+/-- the transaction builds its tracker first -/
+def commit (s : State) (name : String) (count : Option Int) (roots added updated : List (RKey × String)) (removed : List RKey) :
+    State × String :=
+  let (s, rt) := newTracker s
+  commitT s rt name count roots added updated removed
 
 /-- `RemoveBtree(name)` -/
 def remove (s : State) (name : String) : State × String :=
